@@ -759,6 +759,30 @@ impl<'a> Gen<'a> {
                     self.push(Step::new(cl, IsEmpty).a(lit, r9, 0));
                     let qq = self.qstr();
                     self.push(Step::new(cl, StrInRe).a(lit, r9, 0).s(qq));
+                    // ... in front of a tail and intersected with "starts with the first letter":
+                    // the first character of the nested power
+                    if !self.single_cells.is_empty() {
+                        let qa = self.single_cells[w[0] as usize % self.single_cells.len()] * 3;
+                        let tail = self.single_code();
+                        self.push(Step::new(cl, Char).a(tail, 0, 0));
+                        let ht = self.last(c);
+                        self.push(Step::new(cl, Concat).a(lit, ht, 0));
+                        let lt = self.last(c);
+                        self.push(Step::new(cl, Char).a(w[0], 0, 0));
+                        let hf = self.last(c);
+                        self.push(Step::new(cl, All));
+                        let fl = self.last(c);
+                        self.push(Step::new(cl, Concat).a(hf, fl, 0));
+                        let starts = self.last(c);
+                        self.push(Step::new(cl, Inter).a(lit, starts, 0));
+                        let li = self.last(c);
+                        for e in [lt, li] {
+                            self.push(Step::new(cl, StartChar).a(e, qa, 0));
+                            let kk = self.rng.below(3) as u32;
+                            self.push(Step::new(cl, StartClass).a(e, kk, 0));
+                        }
+                        self.push(Step::new(cl, CharDeriv).a(lit, qa, 0));
+                    }
                 }
                 // combined directly: intersection, union, difference of the two spellings
                 let op = [Inter, Inter, Union, Diff][self.rng.below(4) as usize];
@@ -876,7 +900,226 @@ impl<'a> Gen<'a> {
                 let qcode = |g: &Self, code: u32| -> u32 {
                     if g.single_cells.is_empty() { 0 } else { g.single_cells[code as usize % g.single_cells.len()] * 3 }
                 };
-                match self.rng.below(12) {
+                match self.rng.below(16) {
+                    15 => {
+                        // an intersection with a concatenation whose (non-nullable) head is the
+                        // complement of a nullable language, derived by a character outside every
+                        // interval class of that head
+                        let a = self.single_code();
+                        let b = self.single_code();
+                        self.push(Step::new(cl, Char).a(a, 0, 0));
+                        let ha = self.last(c);
+                        let nop = [Star, Opt, Plus][self.rng.below(3) as usize];
+                        self.push(Step::new(cl, nop).a(ha, 0, 0));
+                        let mut n = self.last(c);
+                        if nop == Plus {
+                            self.push(Step::new(cl, Opt).a(n, 0, 0));
+                            n = self.last(c);
+                        }
+                        self.push(Step::new(cl, Compl).a(n, 0, 0));
+                        let head = self.last(c);
+                        self.push(Step::new(cl, Char).a(b, 0, 0));
+                        let hb = self.last(c);
+                        self.push(Step::new(cl, Concat).a(head, hb, 0));
+                        let cat = self.last(c);
+                        let k = self.ncells;
+                        let lo = self.rng.below(k as u64) as u32;
+                        let hi = lo + self.rng.below((k - lo) as u64) as u32;
+                        self.push(Step::new(cl, Range).a(lo, hi, 0));
+                        let rg = self.last(c);
+                        let other = match self.rng.below(3) {
+                            0 => {
+                                self.push(Step::new(cl, Plus).a(rg, 0, 0));
+                                self.last(c)
+                            }
+                            1 => {
+                                self.push(Step::new(cl, Plus).a(2, 0, 0));
+                                self.last(c)
+                            }
+                            _ => self.h(c),
+                        };
+                        let (l, r) = if self.rng.chance(1, 2) { (cat, other) } else { (other, cat) };
+                        self.push(Step::new(cl, Inter).a(l, r, 0));
+                        let e = self.last(c);
+                        let qb = qcode(self, b);
+                        let salt = self.rng.u32();
+                        for _ in 0..3 {
+                            let z = if self.rng.chance(1, 2) { lo * 3 + self.rng.below(3) as u32 } else { self.point_code() };
+                            self.push(Step::new(cl, CharDeriv).a(e, z, 0));
+                            self.push(Step::new(cl, StrInRe).a(e, salt, 0).s(vec![z, qb]));
+                            self.push(Step::new(cl, StrDeriv).a(e, 0, 0).s(vec![z, qb]));
+                        }
+                        self.push(Step::new(cl, ClassInfo).a(e, 0, 0));
+                    }
+                    14 => {
+                        // an intersection without a character-class operand as an element of a
+                        // concatenation, against the same concatenation with Sigma at that position
+                        let a = self.single_code();
+                        let b = a + 1;
+                        self.push(Step::new(cl, Char).a(a, 0, 0));
+                        let ha = self.last(c);
+                        self.push(Step::new(cl, Char).a(b, 0, 0));
+                        let hb = self.last(c);
+                        let x = match self.rng.below(3) {
+                            0 => {
+                                self.push(Step::new(cl, Star).a(ha, 0, 0));
+                                let st = self.last(c);
+                                self.push(Step::new(cl, Plus).a(2, 0, 0));
+                                let sp = self.last(c);
+                                self.push(Step::new(cl, Inter).a(st, sp, 0));
+                                self.last(c)
+                            }
+                            1 => {
+                                self.push(Step::new(cl, Plus).a(ha, 0, 0));
+                                let st = self.last(c);
+                                self.push(Step::new(cl, Str).s(vec![b, b]));
+                                let w = self.last(c);
+                                self.push(Step::new(cl, Compl).a(w, 0, 0));
+                                let nw = self.last(c);
+                                self.push(Step::new(cl, Inter).a(st, nw, 0));
+                                self.last(c)
+                            }
+                            _ => {
+                                let h1 = self.h(c);
+                                let h2 = self.h(c);
+                                self.push(Step::new(cl, Inter).a(h1, h2, 0));
+                                self.last(c)
+                            }
+                        };
+                        let around = self.rng.chance(1, 2);
+                        let mk = |g: &mut Self, mid: u32| -> u32 {
+                            if around {
+                                g.push(Step::new(cl, ConcatList).l(vec![hb, mid, hb]));
+                            } else {
+                                g.push(Step::new(cl, Concat).a(mid, hb, 0));
+                            }
+                            g.last(c)
+                        };
+                        let r = mk(self, x);
+                        let s_ = mk(self, 2);
+                        self.push(Step::new(cl, IncludedIn).a(r, s_, 0));
+                        self.push(Step::new(cl, Union).a(r, s_, 0));
+                        let u = self.last(c);
+                        let (qa, qb) = (qcode(self, a), qcode(self, b));
+                        let mut w = vec![qa, qa, qb];
+                        if around {
+                            w.insert(0, qb);
+                        }
+                        let salt = self.rng.u32();
+                        self.push(Step::new(cl, StrInRe).a(u, salt, 0).s(w));
+                        self.push(Step::new(cl, UnionList).l(vec![s_, r]));
+                    }
+                    13 => {
+                        // a union U of three to five members, then a later term z, then a smaller
+                        // union of U's oldest member and z; both complemented and united
+                        let n = 3 + self.rng.below(3) as usize;
+                        let first = self.single_code();
+                        let ns = self.nsingles.max(1);
+                        let mut ms: Vec<u32> = Vec::new();
+                        for i in 0..n as u32 {
+                            self.push(Step::new(cl, Char).a((first + i) % ns, 0, 0));
+                            ms.push(self.last(c));
+                        }
+                        self.push(Step::new(cl, UnionList).l(ms.clone()));
+                        let big = self.last(c);
+                        // z: a character other clients are likely to have created already on a
+                        // shared manager (then the id order differs from the isolated replica),
+                        // or a term nobody has
+                        let zq: Vec<u32>;
+                        if self.rng.chance(1, 2) {
+                            let zc = (first + n as u32) % ns;
+                            self.push(Step::new(cl, Char).a(zc, 0, 0));
+                            zq = vec![qcode(self, zc)];
+                        } else {
+                            let w = vec![(first + n as u32) % ns, first, self.single_code()];
+                            self.push(Step::new(cl, Str).s(w.clone()));
+                            zq = w.iter().map(|&ch| qcode(self, ch)).collect();
+                        }
+                        let z = self.last(c);
+                        self.push(Step::new(cl, Union).a(ms[0], z, 0));
+                        let small = self.last(c);
+                        self.push(Step::new(cl, Compl).a(big, 0, 0));
+                        let nbig = self.last(c);
+                        self.push(Step::new(cl, Compl).a(small, 0, 0));
+                        let nsmall = self.last(c);
+                        self.push(Step::new(cl, IncludedIn).a(nbig, nsmall, 0));
+                        self.push(Step::new(cl, IncludedIn).a(small, big, 0));
+                        let (l, r) = if self.rng.chance(1, 2) { (nsmall, nbig) } else { (nbig, nsmall) };
+                        self.push(Step::new(cl, Union).a(l, r, 0));
+                        let u = self.last(c);
+                        let salt = self.rng.u32();
+                        self.push(Step::new(cl, StrInRe).a(u, salt, 0).s(zq));
+                        self.push(Step::new(cl, Inter).a(big, small, 0));
+                        self.push(Step::new(cl, Union).a(big, small, 0));
+                    }
+                    12 => {
+                        // (x^[a,b])^[c,d] where the counts leave a gap right after c*b (or just
+                        // do not): queries that isolate the counts around the gap
+                        let k = self.ncells;
+                        let lo = self.rng.below(k as u64) as u32;
+                        self.push(Step::new(cl, Range).a(lo, lo, 0));
+                        let x = self.last(c);
+                        let a = 3 + self.rng.below(7) as u32;
+                        let gap = 1 + self.rng.below(4) as u32;
+                        let b = a + gap;
+                        let c0 = (a - 1) / gap;
+                        let cc = (c0 + self.rng.below(3) as u32).saturating_sub(1).max(1);
+                        let d = cc + 1 + self.rng.below(2) as u32;
+                        self.push(Step::new(cl, Loop).a(x, a, b));
+                        let inner = self.last(c);
+                        self.push(Step::new(cl, Loop).a(inner, cc, d));
+                        let l = self.last(c);
+                        let pc = lo * 3 + 1;
+                        let salt = self.rng.u32();
+                        for m in [cc * b, cc * b + 1, (cc + 1) * a - 1, (cc + 1) * a] {
+                            if m == 0 || m > 70 {
+                                continue;
+                            }
+                            self.push(Step::new(cl, Exp).a(x, m, 0));
+                            let xm = self.last(c);
+                            match self.rng.below(4) {
+                                0 => {
+                                    self.push(Step::new(cl, Inter).a(l, xm, 0));
+                                    let e = self.last(c);
+                                    self.push(Step::new(cl, IsEmpty).a(e, 0, 0));
+                                    self.push(Step::new(cl, GetString).a(e, 0, 0));
+                                }
+                                1 => {
+                                    self.push(Step::new(cl, Diff).a(xm, l, 0));
+                                    let e = self.last(c);
+                                    self.push(Step::new(cl, IsEmpty).a(e, 0, 0));
+                                    self.push(Step::new(cl, GetString).a(e, 0, 0));
+                                }
+                                2 => {
+                                    self.push(Step::new(cl, IncludedIn).a(xm, l, 0));
+                                    self.push(Step::new(cl, StrInRe).a(l, salt, 0).s(vec![pc; m as usize]));
+                                }
+                                _ => {
+                                    if self.mgr[c] == 0 {
+                                        // delimiters around the loop; a subject with exactly m copies
+                                        let y = self.single_code();
+                                        self.push(Step::new(cl, Char).a(y, 0, 0));
+                                        let hy = self.last(c);
+                                        self.push(Step::new(cl, ConcatList).l(vec![hy, l, hy]));
+                                        let pat = self.last(c);
+                                        let qy = qcode(self, y);
+                                        let mut subj = vec![self.point_code(), qy];
+                                        subj.extend(std::iter::repeat(pc).take(m as usize));
+                                        subj.push(qy);
+                                        subj.push(self.point_code());
+                                        let t = self.cstr();
+                                        self.push(Step::new(cl, Replace).a(pat, salt, 0).s(subj.clone()).t(t.clone()));
+                                        self.push(Step::new(cl, ReplaceAll).a(pat, salt, 0).s(subj).t(t));
+                                    } else {
+                                        self.push(Step::new(cl, StrInRe).a(l, salt, 0).s(vec![pc; m as usize]));
+                                    }
+                                }
+                            }
+                        }
+                        if self.rng.chance(1, 3) {
+                            self.push(Step::new(cl, Compile).a(l, salt, 0));
+                        }
+                    }
                     11 => {
                         // erase matches so that the pieces join into a new match, then ask again
                         // about exactly that result with the same pattern
